@@ -125,7 +125,18 @@ REPEAT_CASES = [
 
 NO_MODEL = {"range_const_hi": "range", "range_assoc_const": "range"}
 
+# patterns that assert nothing, at the root and after a chain: (id, body, which counter, expected count by the property)
+ZERO_CASES = [
+    ("zero_root_wstruct", "let v = w(); assert_struct!(root(v.clone()), _ { .. });", "root"),
+    ("zero_root_map", "let v = w(); assert_struct!(root(v.m.clone()), #{ .. });", "root"),
+    ("zero_chain_wild", "let v = w(); assert_struct!(v, W { h.bump(): _, .. });", "meth"),
+    ("zero_chain_wild_in_wstruct", "let v = w(); assert_struct!(v, _ { h.bump(): _, .. });", "meth"),
+    ("zero_chain_map", "let v = w(); assert_struct!(v, W { m.clone(): #{ .. }, h.bump(): _ { .. }, .. });", "meth"),
+]
+
 CLASS_TEXT = {
+    "C08-accept-everything-patterns-evaluate-nothing": "a pattern that asserts nothing expands to no code, so what it is applied to is never evaluated: "
+                                                       "`assert_struct!(next(), _ { .. })` / `#{ .. }` at the root and `h.bump(): _` after a chain evaluate 0 times",
     "C08-fail-path-double-eval": "on the failing path of a leaf or of a composite whose own shape fails, the value expression spliced into "
                                  "format!(\"{:?}\", ..) is evaluated a second time, and that second value is what the report shows: "
                                  "`assert_struct!(next(), > 5)` failing calls next() twice",
@@ -177,13 +188,14 @@ def run(res):
         for outcome, pat in (("pass", pp), ("fail", pf)):
             oper_cases.append({"id": "oper_%d_%s" % (len(oper_cases), outcome), "where": where, "outcome": outcome, "pattern": "W { %s, .. }" % pat,
                                "body": "let v = w(); assert_struct!(v, W { %s, .. });" % pat})
+    zero_cases = [{"id": i, "body": b, "counter": k} for i, b, k in ZERO_CASES]
     rep_cases = []
     for pat, is_async in REPEAT_CASES:
         call = "assert_struct!(v, %s);" % pat
         rep_cases.append({"id": "rep_%d" % len(rep_cases), "pattern": pat, "outcome": "pass",
                           "body": "let v = w(); " + ("block_on(async { %s });" % call if is_async else call)})
     src = (e2e.PRELUDE + DECLS + "fn main() { std::panic::set_hook(Box::new(|_| {}));\n" +
-           "\n".join("    counted(\"%s\", || { %s });" % (c["id"], c["body"]) for c in cases + oper_cases + rep_cases) + "\n}\n")
+           "\n".join("    counted(\"%s\", || { %s });" % (c["id"], c["body"]) for c in cases + oper_cases + rep_cases + zero_cases) + "\n}\n")
     out = e2e.compile_many([src], run=True, tag="c08")
     e2e.cleanup("c08")
     if not out[0]["compiled"]:
@@ -294,6 +306,22 @@ def run(res):
             if rep_bad <= 3:
                 res.violation("failing-input", "`%s` writes the counting method %d time(s) and op(..) %d time(s); on the passing path they are "
                               "evaluated %d and %d time(s)" % (c["pattern"], w_meth, w_oper, r["meth"], r["oper"]), {"program_body": c["body"], "real": r})
+    # patterns that assert nothing: what they are applied to must still be evaluated once (recorded finding when it is 0 times)
+    zero_bad = 0
+    for c in zero_cases:
+        r = real.get(c["id"])
+        if r is None or r["verdict"] != "pass":
+            raise vlib.CheckError("accept-everything case %s: %r (intended pass)" % (c["id"], r))
+        n = r[c["counter"]]
+        if n == 1:
+            continue
+        if n == 0:
+            known_seen.add("C08-accept-everything-patterns-evaluate-nothing")
+            continue
+        zero_bad += 1
+        failing += 1
+        res.violation("failing-input", "`%s`: what a pattern that asserts nothing is applied to is evaluated %d times" % (c["body"], n), {"program_body": c["body"], "real": r})
+    res.streams["accept-everything-patterns"] = {"cases": len(zero_cases), "evaluated_zero_times": sum(1 for c in zero_cases if real[c["id"]][c["counter"]] == 0), "failures": zero_bad}
     # the model's trace for the repeated chains it can express (the synchronous counting method, no op(..) wrapper): exec(expand)
     # must count what the real counters count
     mrep = [c for c in rep_cases if "abump" not in c["pattern"] and "op(" not in c["pattern"]]
